@@ -971,6 +971,13 @@ where
 
         if self.pid_man.is_used_id(packet_id) {
             self.pid_man.release_id(packet_id);
+            // the exchange that owned the id is abandoned: nothing is awaited for it any more,
+            // otherwise a stale entry could later release the id while a new exchange owns it
+            self.pid_suback.remove(&packet_id);
+            self.pid_unsuback.remove(&packet_id);
+            self.pid_puback.remove(&packet_id);
+            self.pid_pubrec.remove(&packet_id);
+            self.pid_pubcomp.remove(&packet_id);
             events.push(GenericEvent::NotifyPacketIdReleased(packet_id));
         }
 
